@@ -991,6 +991,7 @@ def repeating_heads(a):
 PY_TYPES = {
     "string": {"str"}, "token": {"str"}, "int": {"int"}, "long": {"int"}, "boolean": {"bool"}, "date": {"XmlDate"},
     "decimal": {"Decimal"}, "u_int_string": {"int", "str"}, "u_date_int": {"XmlDate", "int"},
+    "l_int": {"int"}, "l_date": {"XmlDate"}, "nmtokens": {"str"},  # the items of a token list
 }
 
 
@@ -1002,7 +1003,12 @@ def retyped(obj, types):
         if md.get("type") != "Element" or key not in PY_TYPES:
             continue
         v = getattr(obj, f.name)
-        for x in (v if type(v) in (list, tuple) else [v]):  # frozen classes hold tuples; XmlDate is a NamedTuple
+        vs = v if type(v) in (list, tuple) else [v]  # frozen classes hold tuples; XmlDate is a NamedTuple
+        if key in G.LIST_TYPES:  # a token list, or (repeating element) a list of token lists: judge the items
+            if not (type(v) in (list, tuple)):
+                return f"element {md.get('name', f.name)} of the list type {G.ELEM_TYPES[key][0]} is held as {type(v).__name__} ({v!r})"
+            vs = [y for x in vs for y in (x if type(x) in (list, tuple) else [x])]
+        for x in vs:
             if x is not None and type(x).__name__ not in PY_TYPES[key]:
                 return f"element {md.get('name', f.name)} of type {G.ELEM_TYPES[key][0]} is held as {type(x).__name__} ({x!r})"
     return None
@@ -1065,7 +1071,11 @@ def _one_pass(g, opts, ordered, a, p, words, types, schema, state):
                     if bad:
                         yield f"document {doc} parsed with a retyped value ({opts}): {bad}"
                         continue
-                out = XmlSerializer(context=ctx).render(obj)
+                try:
+                    out = XmlSerializer(context=ctx).render(obj)
+                except Exception as e:  # noqa: BLE001
+                    yield f"document {doc} parsed but cannot be written ({opts}): {type(e).__name__}: {e}"
+                    continue
                 back = etree.fromstring(out.encode())
                 got = [(etree.QName(c).localname, c.text) for c in back]
                 exp = list(zip(w, G.word_values(w, types)))
@@ -1111,7 +1121,55 @@ OUTPUT_ONLY = [
 ]
 
 
+def token_list_cases(rng, n):
+    """content models with elements of an xs:list type (token lists: one element per list, a repeating
+    element is a list of token lists) where the serializer has to interleave fields:
+    (1) the top-level repeating sequence of single elements (order promised under every configuration),
+    (2) … with an optional / repeating member, (3) a repeating sequence below the top, (4) a repeating choice of
+    single elements (compound fields), (5) a non-repeating choice with a multi-element sequence alternative
+    followed by an optional element, e.g. ((name | (first, last)), email?) — each with words of 2..3 iterations"""
+    names = ["a", "b", "c", "d", "e"]
+    for i in range(n):
+        k = rng.randint(2, 4)
+        ns = names[:k]
+        kind = i % 6
+        mn, mx = rng.choice([(0, G.MAXSIZE), (1, G.MAXSIZE), (1, 3), (2, 4)])
+        if kind in (0, 1, 2):
+            kids = [{"elem": [x, 1, 1]} for x in ns]
+            if kind == 1:
+                kids[rng.randrange(k)]["elem"][1:] = rng.choice([[0, 1], [1, 2], [0, G.MAXSIZE]])
+            rep = {"seq": [mn, mx, kids]}
+            p = rep if kind != 2 else {"seq": [1, 1, [{"elem": ["x", 1, 1]}, rep, {"elem": ["y", 0, 1]}]]}
+            iters = [[w for _ in range(r) for kd in kids for w in G.sample_word(rng, kd)] for r in (max(mn, 2), max(mn, 3))]
+            words = iters if kind != 2 else [["x"] + w + (["y"] if j else []) for j, w in enumerate(iters)]
+        elif kind == 3:
+            p = {"choice": [mn, mx, [{"elem": [x, 1, 1]} for x in ns]]}
+            words = [[rng.choice(ns) for _ in range(r)] for r in (max(mn, 2), max(mn, 3))]
+        elif kind == 4:
+            alt = {"seq": [1, 1, [{"elem": [x, 1, 1]} for x in ns[1:]]]}
+            p = {"seq": [1, 1, [{"choice": [1, 1, [{"elem": [ns[0], 1, 1]}, alt]]}, {"elem": ["z", 0, 1]}]]}
+            words = [[ns[0]], ns[1:] + ["z"], [ns[0], "z"], ns[1:]]
+        else:
+            # (6) a repeating sequence of a choice (one compound field, rolled out item by item) and a single element
+            alt = {"seq": [1, 1, [{"elem": [x, 1, 1]} for x in ns]]}
+            p = {"seq": [mn, mx, [{"choice": [1, 1, [alt] + ([{"elem": ["y", 1, 1]}] if rng.random() < 0.5 else [])]}, {"elem": ["z", 1, 1]}]]}
+            words = [(ns + ["z"]) * r for r in (max(mn, 1), max(mn, 2))]
+        types = G.assign_types(rng, p)
+        for x in rng.sample(ns, rng.randint(1, k)):
+            types[x] = rng.choice(G.LIST_TYPES)
+        configs = [{"compound_fields": True}] + ([rng.choice(OUTPUT_ONLY)] if rng.random() < 0.3 else [])
+        yield {"particle": p, "words": words + [G.sample_word(rng, p) for _ in range(2)], "types": types, "configs": configs}
+
+
 def gen_docs(rng, tier):
+    for a in token_list_cases(rng, n_cases(tier, 15, 600)):
+        try:
+            from lxml import etree
+
+            etree.XMLSchema(etree.fromstring(G.particle_xsd(a["particle"], types=a["types"]).encode()))
+        except Exception:  # noqa: BLE001
+            continue
+        yield a
     for p in particles(rng, n_cases(tier, 60, 100000), dup_share=0.3):
         typed = rng.random() < 0.6
         types = G.assign_types(rng, p) if typed else None
